@@ -147,6 +147,8 @@ PROPS["C02"] = {
     "deps": ["Proofs/DenoteFinal.vo"],
     "props": "Props/C02.v",
     "suites": [("reader", 1200, 30000), ("hist", 600, 12000)],
-    "owner": lambda name: name.startswith("C02.") or name in ("C10.errors_are_classified", "C10.built_graph_is_simple"),
+    # the reader must replay the syntax that was written (C09's oracle on the implementation) for the denotation of the
+    # events to be the denotation of the string
+    "owner": lambda name: name.startswith("C02.") or name in ("C10.errors_are_classified", "C10.built_graph_is_simple", "C09.history_inverse"),
     "assumptions": ["kinds outside C06's known class (the builder panics on them)"],
 }
